@@ -1,6 +1,6 @@
 import re
 """Scanner-level properties: C03 (chain walk), C08 (filtered output), C14 (statistics), C18 (truncation)."""
-import os, struct, sys, json
+import os, struct, sys, json, shutil
 import fplib as L
 import fpgen as G
 from checks_unit import corr, report_dis
@@ -65,6 +65,11 @@ def make_streams(R, tier, framed_only=False):
         else:
             p.rdh.update(link=4, fee=0x3004); p.raw_payload = bytes(R.getrandbits(8) for _ in range(R.choice([8192, 8193, 9000, 10000])))
     out.append(('bigskip', pk))
+    # staves of one layer whose numbers differ by 32 (only the outer layers have that many): the 6-bit stave field
+    pk = G.random_framed_stream(R, 24, max_payload=80, nlinks=1)
+    fees = [(5 << 12) | 8, (5 << 12) | 40, (6 << 12) | 1, (6 << 12) | 33, (6 << 12) | 47, (6 << 12) | 15]
+    for i, p in enumerate(pk): p.rdh.update(fee=fees[i % len(fees)], link=i % len(fees))
+    out.append(('stave32', pk))
     if not framed_only:
         for i in range(3 if tier == 'quick' else 30):
             pk, meta = G.conforming_stream(R)
@@ -165,6 +170,27 @@ def run_c03(ck, ctx):
                                       'stream': name, 'filter': flt, 'via': via, 'input_hex': data.hex()[:200000], 'exit': r.exit,
                                       'rows': len(rows), 'expected_rows': len(exp), 'first_rows': rows[:3], 'args': ['view', 'rdh', '-d'] + flt_args(flt)},
                          key=None)
+    # a long input: more packets than the queues between the threads can hold (100 batches of 100), with a
+    # consumer (the view) slower than the reader; every RDH must still be visited, from file, pipe and a bursty pipe
+    npk = 25000 if tier == 'quick' else 120000
+    hb = bytearray()
+    for i in range(npk):
+        f = dict(G.RDH_DEFAULT); f.update(link=i % 3, fee=0x2000 | (i % 3), orbit=7 + i // 6, page=(i // 3) % 2, stop=(i // 3) % 2, size=64, off=64, pkt=i & 0xFF)
+        hb += G.rdh_bytes(f)
+    hb = bytes(hb)
+    for via in ('file', 'pipe', 'pipe_bursty'):
+        r = L.run_cli(['view', 'rdh', '-d'], hb, via=via, stats=False, timeout=300)
+        rows = parse_view_rdh(r.stdout)
+        ck.case(('cli_long', via)); ck.count('cli_long_' + via)
+        offs_ok = len(rows) == npk and all(rows[k][0] == 64 * k for k in (0, 1, 9999, 10000, 10099, 10100, 10101, npk - 1))
+        if r.exit != 0 or not offs_ok:
+            ck.violation('view_rdh', {'what': 'long input: `view rdh` does not visit every RDH of the chain', 'packets': npk, 'rows': len(rows), 'via': via, 'exit': r.exit,
+                                      'replay': f'{npk} RDH-only packets (offset_to_next = memory_size = 64), 3 links; fastpasta view rdh -d'})
+    r = L.run_cli(['check', 'sanity'], hb, via='pipe_bursty', timeout=300)
+    ck.case(('cli_long', 'check_sanity'))
+    if r.stats is None or r.stats['rdh_stats']['rdhs_seen'] != npk:
+        ck.violation('view_rdh', {'what': 'long input from a producer that pauses: `check sanity` does not visit every RDH', 'packets': npk,
+                                  'rdhs_seen': None if r.stats is None else r.stats['rdh_stats']['rdhs_seen'], 'exit': r.exit})
 
 
 # =============================================================== C08
@@ -179,6 +205,13 @@ def run_c08(ck, ctx):
                 for via in ('file', 'pipe'):
                     if tier == 'quick' and dest == 'stdout' and via == 'pipe' and len(pk) > 120: continue
                     jobs.append((name, flt, dest, via, data))
+
+    # a producer that pauses in mid-stream (two bursts): the output must still be complete
+    for name, pk in streams:
+        if name in ('framed200', 'framed257', 'conf0'):
+            data = G.encode(pk)
+            flt = pick_filters(R, pk)[1]
+            jobs.append((name, flt, 'file', 'pipe_bursty', data)); jobs.append((name, flt, 'stdout', 'pipe_bursty', data))
 
     def job(j):
         name, flt, dest, via, data = j
@@ -322,6 +355,28 @@ def run_c14(ck, ctx):
         if bad:
             ck.violation('stats', {'what': 'statistics differ from ground truth computed from the input', 'stream': name, 'args': args, 'filter': flt,
                                    'differences(impl,truth)': {k: str(v)[:300] for k, v in bad.items()}, 'input_hex': data.hex()[:200000]})
+    # distinct error codes when messages carry nested codes (stave-level lane errors quote [E9003..5]) and custom
+    # check messages: every code of every message, in first-occurrence order
+    import re as _re
+    wd = os.path.join(L.CACHE, 'tmp', f'c14_{os.getpid()}'); os.makedirs(wd, exist_ok=True)
+    for si in range(2 if tier == 'quick' else 12):
+        pk, meta = G.conforming_stream(R, nlinks=R.randint(1, 3), layers=[3, 4, 5, 6], max_hbf=2)
+        data = G.encode(pk)
+        toml = os.path.join(wd, 'c.toml'); open(toml, 'w').write('chip_count_ob = 6\ncdps = 1\ntriggers_pht = 100000\n')
+        r = L.run_cli(['check', 'all', 'its-stave', '-c', toml], data)
+        ck.case(('nested_codes', si))
+        if r.stats is None: continue
+        es = r.stats['error_stats']
+        codes = []
+        for m in es['reported_errors'] + es['custom_checks_stats_errors']:
+            for c in _re.findall(r'\[E([0-9]{2,4})\]', m):
+                if c not in codes: codes.append(c)
+        ck.count('nested_code_runs'); ck.count('nested_codes_seen', len([c for c in codes if len(c) == 4]))
+        if es['unique_error_codes'] != codes or es['total_errors'] != len(es['reported_errors']) + len(es['custom_checks_stats_errors']):
+            ck.violation('stats', {'what': 'distinct error codes / total differ from what the reported messages contain (nested lane codes, custom checks)',
+                                   'unique_error_codes': es['unique_error_codes'], 'codes_in_messages': codes, 'total_errors': es['total_errors'],
+                                   'args': 'check all its-stave -c <chip_count_ob = 6, cdps = 1, triggers_pht = 100000>', 'input_hex': data.hex()[:200000]})
+    shutil.rmtree(wd, ignore_errors=True)
     # model correspondence
     model = L.run_driver(reqs)
     dis = []
